@@ -38,3 +38,6 @@ CFG = {
 
 # translator plugins this property needs besides the board tables of tools/gen.py (none)
 CFG["gen_plugins"] = []
+
+# a run with fewer cases than half of what the quick tier generates today would be a (partly) vacuous differential
+CFG["min_cases"] = 9962
